@@ -72,7 +72,9 @@ def sources(tier, sd):
         rng = random.Random(sd)
         if tier == "quick":
             rng.shuffle(cs)
-            cs = cs[:700]
+            # families built around what a statement leaves on the stacks are always in
+            must = [c for c in cs if c["fam"].startswith(("trap-loop", "goto-select", "pending", "exit-blocks", "goto-frames"))]
+            cs = must + [c for c in cs if c not in must][:700]
         elif len(cs) > 12000:
             rng.shuffle(cs)
             cs = cs[:12000]
